@@ -26,11 +26,24 @@ func SchemaSetFromFiles(descFiles *protoregistry.Files, include func(protoreflec
 		if !include(file) {
 			return true
 		}
-		fileMessages := file.Messages()
-		for ii := 0; ii < fileMessages.Len(); ii++ {
-			message := fileMessages.Get(ii)
-			messages = append(messages, message)
+		// Nested declarations are schemas in their own right, whether or not a
+		// field refers to them (map entries are synthetic and are not).
+		var addMessages func(list protoreflect.MessageDescriptors)
+		addMessages = func(list protoreflect.MessageDescriptors) {
+			for ii := 0; ii < list.Len(); ii++ {
+				message := list.Get(ii)
+				if message.IsMapEntry() {
+					continue
+				}
+				messages = append(messages, message)
+				addMessages(message.Messages())
+				nestedEnums := message.Enums()
+				for jj := 0; jj < nestedEnums.Len(); jj++ {
+					enums = append(enums, nestedEnums.Get(jj))
+				}
+			}
 		}
+		addMessages(file.Messages())
 
 		fileEnums := file.Enums()
 		for ii := 0; ii < fileEnums.Len(); ii++ {
